@@ -561,6 +561,27 @@ class C08(Prop):
             else:
                 ops.append("rt1 tcp6/%s/%s/%d/%d" % (V.groups_to_bytes(V.rand_ip6_groups(rng)).hex(), V.groups_to_bytes(V.rand_ip6_groups(rng)).hex(), V.rand_port(rng), V.rand_port(rng)))
         ops.append("rt1 tcp6/%s/%s/65535/65535" % ("ff" * 16, "ff" * 16))
+        # formatting must not depend on what was formatted before (a per-thread cache, a reused buffer):
+        # chains of related values formatted one after the other by the same harness process - the same
+        # numeric addresses across the two families (IPv4-compatible, IPv4-mapped, NAT64 embeddings),
+        # the same addresses with other ports, the same ports with other addresses, Unknown in between
+        for _ in range(60 if tier == "quick" else 1500):
+            a, b = V.rand_ip4(rng), V.rand_ip4(rng)
+            sp, dp = V.rand_port(rng), V.rand_port(rng)
+            t4 = "rt1 tcp4/%s/%s/%d/%d" % (a.hex(), b.hex(), sp, dp)
+            embeds = [lambda x: bytes(12) + x, lambda x: bytes(10) + b"\xff\xff" + x, lambda x: b"\x00\x64\xff\x9b" + bytes(8) + x,
+                      lambda x: x + bytes(12), lambda x: bytes(8) + x + bytes(4)]
+            chain = [t4]
+            for e in embeds:
+                chain.append("rt1 tcp6/%s/%s/%d/%d" % (e(a).hex(), e(b).hex(), sp, dp))
+                chain.append(t4)
+            chain.append("rt1 tcp4/%s/%s/%d/%d" % (a.hex(), b.hex(), dp, sp))
+            chain.append("rt1 tcp4/%s/%s/%d/%d" % (b.hex(), a.hex(), sp, dp))
+            chain.append("rt1 unknown")
+            chain.append("rt1 tcp6/%s/%s/%d/%d" % ((bytes(12) + a).hex(), (bytes(12) + b).hex(), sp, dp))
+            chain.append("rt1 tcp6/%s/%s/%d/%d" % ((bytes(12) + a).hex(), (bytes(12) + b).hex(), dp, sp))
+            chain.append(t4)
+            ops.extend(chain)
         # a parsed header formats back to exactly the text it was parsed from — in particular
         # non-canonical but valid spellings
         for l in V.valid_lines(rng, 300 if tier == "quick" else 8000):
